@@ -8,14 +8,21 @@ verify <hs> <chain> | <rec>*                       -> ret <0|1> <nil|tls|nomatch
 check  <hr> <fut> <hs> <chain> | <rec>*            -> ret <none|auth> <nil|temp|tls|nomatch> | panic
 disc   <ck> <cn> <tr> <tm>                         -> ok <rec-keys> | err <nf|ot|na>
 conn   <hr> <ck> <cn> <tr> <tm> <hs> <chain>       -> as check
+res    <srv>*                                      -> <ck> <cn> <tr> <tm> (results as rec keys) | panic
+rconn  <hs> <chain> <srv>+                         -> as check
 ```
 
 * `<chain>` = `n:<cabits>:<vbits>`: n presented certificates (0 = leaf), `cabits[j]` = IsCA of
   certificate j, `vbits[mask]` = result of x509 verification of the leaf with roots = the
   certificates in `mask` (bit j = certificate j) and all other presented certificates as
   intermediates. Empty bit strings are written `-`.
-* `<rec>` = `usage.selector.mtype.kind.tag`: `tag` is the bit mask of presented certificates the
-  association data matches (bit j = certificate j); `kind` is for the harness only.
+* `<rec>` = `usage.selector.mtype.kind.tag[.owner]`: `tag` is the bit mask of presented certificates
+  the association data matches (bit j = certificate j); `kind` is for the harness only; `owner` is
+  the index of the RR's owner name in the harness' table (0 = `_25._tcp.<mx>`, the default).
+* `<srv>` = `<loopback>/<a>/<aaaa>/<cname>/<tlsaR>/<tlsaM>`, each question `<udp>~<tcp>`, each
+  message `x` (no usable answer) or `<rcode>:<ad>:<tc>:<body>`; body = `E|S|O` (owner of the last
+  address record: none / the MX name / another name) for a and aaaa, `-` for cname, `<rec>,…` or
+  `-` for the TLSA questions. The model is run with the tree's transport (`udpOnly`).
 * `<ck>` = `e:nf | e:ot | ok:<ad>:<E|S|O>`, `<cn>` = `e:nf | e:ot | ok:<0|1>`,
   `<tr>`/`<tm>` = `<-|nf|ot>:<ad>:<rec>,<rec>,…` (`-` for no record), `<fut>` = `ok | e:nf | e:ot | e:na`.
 * tokens of the form `z=…` are harness-side replay information and are ignored.
@@ -33,7 +40,8 @@ def nat? (s : String) : Option Nat := s.toNat?
 
 def parseRec (s : String) : Option Rec :=
   match s.splitOn "." with
-  | [u, sl, m, _, t] => do pure ⟨← nat? u, ← nat? sl, ← nat? m, ← nat? t⟩
+  | [u, sl, m, _, t] => do pure ⟨← nat? u, ← nat? sl, ← nat? m, ← nat? t, 0⟩
+  | [u, sl, m, _, t, o] => do pure ⟨← nat? u, ← nat? sl, ← nat? m, ← nat? t, ← nat? o⟩
   | _ => none
 
 structure Chain where
@@ -127,7 +135,57 @@ def parseFut (s : String) (recs : List Rec) : Option (Except DiscErr (List Rec))
   else if s == "e:na" then some (.error .noAddress)
   else none
 
-def recKey (r : Rec) : String := s!"{r.usage}.{r.selector}.{r.mtype}.{r.tag}"
+def recKey (r : Rec) : String := s!"{r.usage}.{r.selector}.{r.mtype}.{r.tag}.{r.owner}"
+
+def parseRName (s : String) : Option RName :=
+  if s == "E" then some .empty else if s == "S" then some .same else if s == "O" then some .other
+  else none
+
+/-- `kind`: 0 = address question, 1 = CNAME question, 2 = TLSA question -/
+def parseMsg (kind : Nat) (s : String) : Option (Option Msg) :=
+  if s == "x" then some none
+  else match s.splitOn ":" with
+  | [rc, ad, tc, body] => do
+    let rc ← nat? rc
+    let ad ← bool? ad
+    let tc ← bool? tc
+    match kind with
+    | 0 => do pure (some ⟨rc, ad, tc, ← parseRName body, []⟩)
+    | 1 => if body == "-" then pure (some ⟨rc, ad, tc, .empty, []⟩) else none
+    | _ => do
+      let rs ← (if body == "-" then some [] else (body.splitOn ",").mapM parseRec)
+      pure (some ⟨rc, ad, tc, .empty, rs⟩)
+  | _ => none
+
+def parseQ (kind : Nat) (s : String) : Option SrvAns :=
+  match s.splitOn "~" with
+  | [u, t] => do pure ⟨← parseMsg kind u, ← parseMsg kind t⟩
+  | _ => none
+
+def parseSrv (s : String) : Option Srv :=
+  match s.splitOn "/" with
+  | [lb, a, a6, cn, tr, tm] => do
+    pure ⟨← bool? lb, ← parseQ 0 a, ← parseQ 0 a6, ← parseQ 1 cn, ← parseQ 2 tr, ← parseQ 2 tm⟩
+  | _ => none
+
+def showCk : Except LErr (Bool × RName) → String
+  | .error .notFound => "e:nf"
+  | .error .other => "e:ot"
+  | .ok (ad, rn) =>
+    s!"ok:{if ad then 1 else 0}:{match rn with | .empty => "E" | .same => "S" | .other => "O"}"
+
+def showCn : Except LErr Bool → String
+  | .error .notFound => "e:nf"
+  | .error .other => "e:ot"
+  | .ok ad => s!"ok:{if ad then 1 else 0}"
+
+def showAns (a : TLSAAns) : String :=
+  let e := match a.err with | none => "-" | some .notFound => "nf" | some .other => "ot"
+  s!"{e}:{if a.ad then 1 else 0}:{if a.recs.isEmpty then "-" else ",".intercalate (a.recs.map recKey)}"
+
+/-- every TLSA record a server may deliver over either transport -/
+def srvRecs (W : List Srv) : List (List Rec) :=
+  W.flatMap (fun s => [s.tlsaR.udp, s.tlsaR.tcp, s.tlsaM.udp, s.tlsaM.tcp].filterMap (·.map (·.recs)))
 
 def showDisc : Except DiscErr (List Rec) → String
   | .ok rs => "ok " ++ (if rs.isEmpty then "-" else ",".intercalate (rs.map recKey))
@@ -165,6 +223,23 @@ def handle (toks0 : List String) : String :=
       else if !(poolsOk c tr.recs && poolsOk c tm.recs) then "bad-pools"
       else showCRes (connDecision c.env hr ⟨ck, cn, tr, tm⟩ hs c.certs)
     | _, _, _, _, _, _, _ => "bad-op"
+  | "res" :: srvs =>
+    if !tl.isEmpty then "bad-op"
+    else match srvs.mapM parseSrv with
+    | some W =>
+      match resolverDns udpOnly W with
+      | none => "panic"
+      | some D => s!"{showCk D.checkCNAMEAD} {showCn D.lookupCNAME} {showAns D.tlsaRname} {showAns D.tlsaMX}"
+    | none => "bad-op"
+  | "rconn" :: hs :: ch :: srvs =>
+    match bool? hs, parseChain ch, srvs.mapM parseSrv with
+    | some hs, some c, some W =>
+      if !tl.isEmpty || W.isEmpty then "bad-op"
+      else if !((srvRecs W).all (poolsOk c)) then "bad-pools"
+      else match resolverConn c.env udpOnly W hs c.certs with
+        | none => "panic"
+        | some r => showCRes r
+    | _, _, _ => "bad-op"
   | _ => "bad-op"
 
 end Driver.C13
